@@ -337,8 +337,8 @@ def retryLoop (c : Cfg) (size fuel : Nat) (post : Meta → M Meta) : Nat → Nat
     | .error e =>
       if c.kind = .none then pure (.error e, s1)
       else do
-        -- `i == self.max_retries - 1` on `u8`
-        let last ← subU "max_retries-1" c.retries 1
+        -- `i == self.max_retries.saturating_sub(1)` on `u8`
+        let last := c.retries - 1
         if i = last then pure (.error e, s1)
         else
           let _ ← (if i + 1 < 256 then pure () else throw (Fail.trap "retry:i+=1") : M Unit)
